@@ -171,7 +171,8 @@ class Oracle:
                             urls.append(("media", rep.template.media))
                     # on-demand BaseURLs carry no options: the on-demand endpoint serves stored bytes unchanged
                     for what, url in urls:
-                        query = urllib.parse.urlsplit(url).query
+                        # '$$' is the escape for a literal '$' in a template
+                        query = urllib.parse.urlsplit(url).query.replace("$$", "$")
                         args = dict(urllib.parse.parse_qsl(query, keep_blank_values=True))
                         sim.check("c07-url")
                         try:
